@@ -907,7 +907,8 @@ class MultiVector:
 
     @memoize_method
     def __hash__(self):
-        result = hash(self.space)
+        # must agree with __eq__, which compares coefficients only
+        result = 0
         for bits, coeff in self.data.items():
             result ^= hash(bits) ^ hash(coeff)
 
